@@ -19,10 +19,16 @@ def gen_env(rng, idx, big=False):
     assets = [-2, -3, -4, -5][:rng.randint(2, 4)]
     nscripts = rng.randint(3, 10 if not big else 16)
     times = [0, 1, 2, 3, 4, 8, 8, 8, 16, 16, 17, 24, 32, 33, 40]
+    def sa(a):
+        # events may belong to no asset (id -1, the id the library itself uses for its internal events);
+        # only pausing / cancelling that id is outside the property's domain
+        return -1 if rng.random() < 0.12 else a
     for k in range(nscripts):
         for _ in range(rng.choice([0, 1, 1, 2, 2, 3])):
             c = rng.random()
             a = rng.choice(assets)
+            if c < 0.45 and k + 1 < nscripts:
+                a = sa(a)
             if c < 0.35 and k + 1 < nscripts:
                 L.append(['script', str(k), 'schedrel', str(rng.choice([0, 0, 1, 2, 3, 8, 16])),
                           str(a), str(rng.randrange(k + 1, nscripts)), str(pick_prio(rng))])
@@ -49,7 +55,7 @@ def gen_env(rng, idx, big=False):
             c = {0: 0.0, 1: 0.0, 2: 0.0, 3: 0.52, 4: 0.52, 5: 0.6, 6: 0.6, 7: 0.67, 8: 0.75, 9: 0.9}[rng.randrange(10)]
         if c < 0.5:
             t = rng.choice(times) + (now if rng.random() < 0.6 else 0)
-            L.append(['ext', 'sched', str(t), str(a), str(rng.randrange(nscripts)), str(pick_prio(rng))])
+            L.append(['ext', 'sched', str(t), str(sa(a)), str(rng.randrange(nscripts)), str(pick_prio(rng))])
         elif c < 0.58:
             L.append(['ext', 'pause', str(a)])
         elif c < 0.66:
@@ -1038,7 +1044,7 @@ def gen_floor_reentrant(rng, idx, big=False):
     prev = 0
     for j in range(n):
         L.append(['asset', 'dev', 'processor', f'up={prev}', f'cyc={rng.choice([6, 10, 12, 20])}', 'nshut=1', 'nrest=1',
-                  f'shutrestore={rng.choice([1, 1, 0]) if j else 1}'])
+                  f'shutrestore={rng.choice([1, 2, 0]) if j else rng.choice([1, 2])}'])
         procs.append(j + 1)
         prev = j + 1
     L.append(['asset', 'dev', 'sink', f'up={prev}', f'cyc={rng.choice([0, 0, 4])}', 'collect=0'])
@@ -1046,8 +1052,14 @@ def gen_floor_reentrant(rng, idx, big=False):
     t = rng.choice([3, 5, 9])
     for _ in range(rng.randint(1, 5)):
         d = rng.choice(procs)
-        sched.append((t, ['schedfailrel', str(d), str(rng.choice([0, 1, 2, 5]))]))
-        t += rng.choice([7, 11, 17, 23])
+        if rng.random() < 0.6:
+            sched.append((t, ['schedfailrel', str(d), str(rng.choice([0, 1, 2, 5]))]))
+        else:
+            # maintenance-style shutdown (the first one of a vetoing machine is undone by its callback),
+            # restored a little later
+            sched.append((t, ['shutdown', str(d)]))
+            sched.append((t + rng.choice([1, 2, 5]), ['restore', str(d)]))
+        t += rng.choice([3, 7, 11, 17, 23])
     _sched_ops(L, rng, sched)
     L.append(['run', str(rng.choice([64, 96, 128]))])
     L.append(['end'])
@@ -1081,9 +1093,40 @@ def gen_floor_idle(rng, idx, big=False):
     return L
 
 
+def gen_floor_budget(rng, idx, big=False):
+    """Part budgets: sources with small finite budgets that run out and are topped up (or cut) shortly
+    after the last supply, in the middle of the source's tail cycle, exactly at its end, or much later;
+    fast and slow downstreams."""
+    L = _hdr(rng, idx)
+    B = FloorBuilder(rng)
+    srcs = []
+    for j in range(rng.choice([1, 1, 2])):
+        srcs.append((B.dev('source', cyc=rng.choice([3, 4, 8]), budget=rng.choice(['0', '1', '2', '3']), pval=0), ))
+    prev = [x[0] for x in srcs]
+    k = rng.choice(['handler', 'processor', 'buffer'])
+    m = B.dev(k, up=','.join(map(str, prev)), cyc=rng.choice([0, 1, 4, 10]), cap=rng.choice(['inf', '1', '2']) if k == 'buffer' else None,
+              delay=0 if k == 'buffer' else None)
+    B.dev('sink', up=str(m), cyc=rng.choice([0, 0, 6]), collect=0)
+    L += B.L
+    sched = []
+    for (x,) in srcs:
+        line = B.L[x]
+        cyc = int([t for t in line if t.startswith('cyc=')][0][4:])
+        bud = int([t for t in line if t.startswith('budget=')][0][7:])
+        t = bud * cyc
+        for _ in range(rng.randint(1, 3)):
+            t += rng.choice([0, 1, 2, cyc - 1, cyc, cyc + 1, 2 * cyc + 1, 17])
+            sched.append((t, ['adjust', str(x), str(rng.choice([1, 1, 2, 3, -1]))]))
+            t += rng.choice([0, 1, cyc])
+    _sched_ops(L, rng, sched)
+    L.append(['run', str(rng.choice([64, 96]))])
+    L.append(['end'])
+    return L
+
+
 FAMILIES.update({'floorpf': gen_floor_procfirst, 'floorm': gen_floor_maint, 'floorb': gen_floor_batch, 'floorg': gen_floor_groups,
                  'floorp': gen_floor_pools, 'floors': gen_floor_special, 'floorl': gen_floor_late,
-                 'floorr': gen_floor_reentrant, 'floori': gen_floor_idle})
+                 'floorr': gen_floor_reentrant, 'floori': gen_floor_idle, 'floorq': gen_floor_budget})
 
 
 # ------------------------------------------------------------------------ exhaustive enumerations
